@@ -108,6 +108,7 @@ type c06Cfg struct {
 	JWT     *c06JWTCfg   `json:"jwt"`
 	Sig     *c06SigCfg   `json:"sig"`
 	Basic   *c06BasicCfg `json:"basic"`
+	OAuth2  *c06JWTCfg   `json:"oauth2"` // OAuth2 validator in JWT mode (alg, secret; no cookie)
 }
 
 type c06Req struct {
@@ -125,9 +126,15 @@ type c06JWTCred struct {
 	Exp       *int64 `json:"exp"` // offsets in seconds from now; nil = claim absent
 	Nbf       *int64 `json:"nbf"`
 	Iat       *int64 `json:"iat"`
-	Sub       string `json:"sub"`
-	Where     string `json:"where"` // bearer | cookie | both
-	Cookie    string `json:"cookie"`
+	// spelling of the exp / nbf NumericDate in the token's JSON: "" integer, "frac" value+0.5, "frac25" value+0.25,
+	// "e" exponent form of the integer (1.7907e9), "E" (1.7907E+9), "em1" (<value*10+5>e-1 = value+0.5),
+	// "dot0" (value.0), "str" (a JSON string: not a NumericDate; golang-jwt ignores it)
+	ExpForm string `json:"exp_form,omitempty"`
+	NbfForm string `json:"nbf_form,omitempty"`
+	Sub     string `json:"sub"`
+	Scope   string `json:"scope,omitempty"`
+	Where   string `json:"where"` // bearer | cookie | both
+	Cookie  string `json:"cookie"`
 }
 
 type c06SigCred struct {
@@ -198,17 +205,18 @@ type c06TokOracle struct {
 }
 
 type c06Parsed struct {
-	Method     string     `json:"method"`
-	EPath      string     `json:"epath"`
-	Opaque     string     `json:"opaque"`
-	Host       string     `json:"host"`
-	URLHost    string     `json:"url_host"`
-	Scheme     string     `json:"scheme"`
-	Query      [][]string `json:"query"`   // [key, v1, v2, ...] sorted by key
-	Headers    [][]string `json:"headers"` // [Key, v1, v2, ...] sorted by key
-	PayloadHex string     `json:"payload_hex"`
-	CookieOK   bool       `json:"cookie_ok"`
-	CookieVal  string     `json:"cookie_val"`
+	Method     string          `json:"method"`
+	EPath      string          `json:"epath"`
+	Opaque     string          `json:"opaque"`
+	Host       string          `json:"host"`
+	URLHost    string          `json:"url_host"`
+	Scheme     string          `json:"scheme"`
+	Query      [][]string      `json:"query"`     // [key, v1, v2, ...] sorted by key
+	QueryErr   bool            `json:"query_err"` // url.ParseQuery(RawQuery) reports an error: some pair (';', bad escape) is not in Query
+	Headers    [][]string      `json:"headers"`   // [Key, v1, v2, ...] sorted by key
+	PayloadHex string          `json:"payload_hex"`
+	CookieOK   bool            `json:"cookie_ok"`
+	CookieVal  string          `json:"cookie_val"`
 	Rules      []c06RuleOracle `json:"rules"`
 	Times      []c06TimeOracle `json:"times"`
 	Uints      []c06UintOracle `json:"uints"`
@@ -216,20 +224,22 @@ type c06Parsed struct {
 }
 
 type c06ReqObs struct {
-	Label     string     `json:"label"`
-	Sent      c06Req     `json:"sent"`
-	ParseErr  string     `json:"parse_err"`
-	FetchErr  string     `json:"fetch_err"`
-	P         *c06Parsed `json:"p"`
-	Result    string     `json:"result"`
-	Status    int        `json:"status"`
-	HasResp   bool       `json:"has_resp"`
-	AuthUser  string     `json:"auth_user"`
-	FwdHex    string     `json:"fwd_hex"` // payload after Handle = what the backend would receive
-	T0        int64      `json:"t0_ns"`
-	T1        int64      `json:"t1_ns"`
-	JWTNow    int64      `json:"jwt_now_s"`
-	Panic     string     `json:"panic,omitempty"`
+	Label      string     `json:"label"`
+	Sent       c06Req     `json:"sent"`
+	ParseErr   string     `json:"parse_err"`
+	FetchErr   string     `json:"fetch_err"`
+	P          *c06Parsed `json:"p"`
+	Result     string     `json:"result"`
+	Status     int        `json:"status"`
+	HasResp    bool       `json:"has_resp"`
+	AuthUser   string     `json:"auth_user"`
+	OAuthUser  string     `json:"oauth_user"`  // X-Authenticated-Userid after Handle
+	OAuthScope string     `json:"oauth_scope"` // X-Authenticated-Scope after Handle
+	FwdHex     string     `json:"fwd_hex"`     // payload after Handle = what the backend would receive
+	T0         int64      `json:"t0_ns"`
+	T1         int64      `json:"t1_ns"`
+	JWTNow     int64      `json:"jwt_now_s"`
+	Panic      string     `json:"panic,omitempty"`
 }
 
 type c06Obs struct {
@@ -416,19 +426,59 @@ func c06Sign(cfg *c06SigCfg, c *c06SigCred, now time.Time, r *c06Req) {
 	}
 }
 
+// c06NumericDate spells the NumericDate v (seconds) in the given form (see c06JWTCred).
+func c06NumericDate(v int64, form string) interface{} {
+	expForm := func(e string) string {
+		neg := ""
+		if v < 0 {
+			neg, v = "-", -v
+		}
+		d := strconv.FormatInt(v, 10)
+		mant := strings.TrimRight(d[1:], "0")
+		if mant == "" {
+			mant = "0"
+		}
+		return neg + d[:1] + "." + mant + e + strconv.Itoa(len(d)-1)
+	}
+	switch form {
+	case "frac":
+		return json.RawMessage(strconv.FormatInt(v, 10) + ".5")
+	case "frac25":
+		return json.RawMessage(strconv.FormatInt(v, 10) + ".25")
+	case "dot0":
+		return json.RawMessage(strconv.FormatInt(v, 10) + ".0")
+	case "em1":
+		return json.RawMessage(strconv.FormatInt(v, 10) + "5e-1")
+	case "e":
+		return json.RawMessage(expForm("e"))
+	case "E":
+		return json.RawMessage(expForm("E+"))
+	case "str":
+		return strconv.FormatInt(v, 10)
+	}
+	return v
+}
+
 func c06IssueJWT(c *c06JWTCred, now int64) string {
 	claims := jwt.MapClaims{}
 	if c.Exp != nil {
-		claims["exp"] = now + *c.Exp
+		claims["exp"] = c06NumericDate(now+*c.Exp, c.ExpForm)
 	}
 	if c.Nbf != nil {
-		claims["nbf"] = now + *c.Nbf
+		claims["nbf"] = c06NumericDate(now+*c.Nbf, c.NbfForm)
 	}
 	if c.Iat != nil {
 		claims["iat"] = now + *c.Iat
 	}
 	if c.Sub != "" {
 		claims["sub"] = c.Sub
+	}
+	switch c.Scope {
+	case "":
+	case "#number": // a scope claim that is not a string
+		claims["scope"] = 7
+	default:
+		claims["scope"] = c.Scope
 	}
 	secret := c06HexDec(c.SecretHex)
 	if c.Alg == "none" {
@@ -517,10 +567,10 @@ func c06ApplyPre(cred c06Cred, m c06Mut) (c06Cred, bool) {
 			j.SecretHex = m.V
 		case "jwt_exp":
 			v := int64(m.Pos)
-			j.Exp = &v
+			j.Exp, j.ExpForm = &v, m.V
 		case "jwt_nbf":
 			v := int64(m.Pos)
-			j.Nbf = &v
+			j.Nbf, j.NbfForm = &v, m.V
 		case "jwt_where":
 			j.Where = m.V
 		}
@@ -575,6 +625,12 @@ func c06ApplyPost(r c06Req, m c06Mut) c06Req {
 		r.Method = m.V
 	case "target":
 		r.Target = m.V
+	case "target_append": // more query pairs after the ones that were signed
+		if strings.Contains(r.Target, "?") {
+			r.Target += "&" + m.V
+		} else {
+			r.Target += "?" + m.V
+		}
 	case "target_byte":
 		b := []byte(r.Target)
 		if i := c06Index(m.Pos, len(b)); i > 0 { // never the leading '/'
@@ -812,6 +868,9 @@ func c06RunOne(v *Validator, in *c06Input, label string, r c06Req) (o c06ReqObs)
 	p := &c06Parsed{Method: c06S(stdr.Method), EPath: c06S(stdr.URL.EscapedPath()), Opaque: stdr.URL.Opaque, Host: c06S(stdr.Host),
 		URLHost: c06S(stdr.URL.Host), Scheme: c06S(stdr.URL.Scheme), Query: c06SortedMap(stdr.URL.Query()),
 		Headers: c06SortedMap(stdr.Header), PayloadHex: hex.EncodeToString(req.RawPayload())}
+	if _, qe := url.ParseQuery(stdr.URL.RawQuery); qe != nil {
+		p.QueryErr = true
+	}
 	c06Oracles(in, stdr, p)
 	o.P = p
 
@@ -826,6 +885,7 @@ func c06RunOne(v *Validator, in *c06Input, label string, r c06Req) (o c06ReqObs)
 		o.Status = resp.(*httpprot.Response).StatusCode()
 	}
 	o.AuthUser = c06S(stdr.Header.Get("X-AUTH-USER"))
+	o.OAuthUser, o.OAuthScope = c06S(stdr.Header.Get("X-Authenticated-Userid")), c06S(stdr.Header.Get("X-Authenticated-Scope"))
 	o.FwdHex = hex.EncodeToString(req.RawPayload())
 	return
 }
@@ -849,6 +909,9 @@ func c06MakeValidator(cfg *c06Cfg) (*Validator, func(), error) {
 	}
 	if cfg.JWT != nil {
 		raw["jwt"] = map[string]interface{}{"algorithm": cfg.JWT.Alg, "secret": cfg.JWT.SecretHex, "cookieName": cfg.JWT.Cookie}
+	}
+	if cfg.OAuth2 != nil {
+		raw["oauth2"] = map[string]interface{}{"jwt": map[string]interface{}{"algorithm": cfg.OAuth2.Alg, "secret": cfg.OAuth2.SecretHex}}
 	}
 	if cfg.Sig != nil {
 		s := map[string]interface{}{"excludeBody": cfg.Sig.ExcludeBody}
